@@ -15,9 +15,10 @@ pub fn scenario(tier: &str) -> IncScn {
     ];
     roots.push(IncRoot { label: "native-lp/flow-ended-after-6-epochs".into(), lp_native: true, fee_kind: FeeKind::NativeDiff, prefix: 3, standing_allowance: false });
     roots.push(IncRoot { label: "native-lp/two-flows-55-unclaimed-epochs".into(), lp_native: true, fee_kind: FeeKind::NativeDiff, prefix: 6, standing_allowance: false });
+    // 99 epochs without a claim: one more epoch puts the claim exactly on the 100-epoch cap
+    roots.push(IncRoot { label: "native-lp/99-unclaimed-epochs".into(), lp_native: true, fee_kind: FeeKind::NativeDiff, prefix: 4, standing_allowance: false });
     if tier != "quick" {
         roots.push(IncRoot { label: "native-lp/positions".into(), lp_native: true, fee_kind: FeeKind::Cw20Diff, prefix: 1, standing_allowance: false });
-        roots.push(IncRoot { label: "native-lp/99-unclaimed-epochs".into(), lp_native: true, fee_kind: FeeKind::NativeDiff, prefix: 4, standing_allowance: false });
     }
     IncScn { property: "C13".into(), roots, users: default_users(), reduced: tier == "quick" }
 }
@@ -124,10 +125,17 @@ pub fn run(tier: &str, seed: u64) -> i32 {
         "position amounts {1,2,3,1000}, three durations, flows of 11000 over 4 epochs with expansions of 5000; histories bounded by the stated depth (20-epoch histories are not reached)".into(),
     ];
     formula_grid(&mut ev, tier);
-    let depth = if tier == "quick" { 5 } else { 6 };
-    let cfg = default_cfg("C13", tier, seed, depth);
+    // every root of the tier to depth 5; thorough adds depth 6 from the three short-history roots (the long-history
+    // roots at depth 6 exceed the time cap: 21 M states in 1500 s without finishing the level)
+    let cfg = default_cfg("C13", tier, seed, 5);
     if ev.violations.is_empty() {
         ev.add_report(explore(&scenario(tier), &cfg));
+    }
+    if tier != "quick" && ev.violations.is_empty() {
+        let mut deep = scenario(tier);
+        deep.roots.retain(|r| r.prefix <= 2);
+        let cfg = default_cfg("C13", tier, seed, 6);
+        ev.add_report(explore(&deep, &cfg));
     }
     if ev.violations.is_empty() {
         for c in ["open:ok", "expand:ok", "close:ok", "claim:paid>0", "shares:evaluated", "snapshot:ok", "tick"] {
